@@ -16,12 +16,14 @@ func init() { Registry["C01"] = c01 }
 func batchAlphabet(prefix string) []Batch {
 	root := bytes.Repeat([]byte{0xAB}, 32)
 	long := bytes.Repeat([]byte("0123456789"), 30)
+	// (the batch with the LAST baked position comes before the one with low positions, so that
+	// an expansion that depends on what was expanded before is exercised)
 	return []Batch{
 		{ID: prefix + "-one", Tasks: world.SimpleTasks(prefix+"a", []byte{0x01})},
 		{ID: prefix + "-mixed", Tasks: world.SimpleTasks(prefix+"b", []byte{0x00, 0x00, 0x00}, root, long)},
 		{ID: prefix + "-dup", Tasks: world.SimpleTasks(prefix+"c", []byte("same"), []byte("same"))},
-		{ID: prefix + "-baked", Tasks: []requests.SigningTask{{MessageID: prefix + "-range", RangeStart: 3, RangeEnd: 5}}},
 		{ID: prefix + "-bakedmix", Tasks: append(world.SimpleTasks(prefix+"d", []byte{0xff, 0xfe}), requests.SigningTask{MessageID: prefix + "-r2", RangeStart: 18631, RangeEnd: 18632})},
+		{ID: prefix + "-baked", Tasks: []requests.SigningTask{{MessageID: prefix + "-range", RangeStart: 3, RangeEnd: 5}}},
 	}
 }
 
